@@ -4,6 +4,8 @@ import re
 from base64 import a85decode
 from binascii import unhexlify
 
+from pdfminer.pdfexceptions import PDFValueError
+
 # the six PDF white-space characters (plus VT, which a85decode skips by default)
 PDF_WHITESPACE = b"\x00\t\n\x0b\x0c\r "
 
@@ -27,7 +29,10 @@ def ascii85decode(data: bytes) -> bytes:
     """
     data = start_re.sub(b"", data)
     data = end_re.sub(b"", data)
-    return a85decode(data, ignorechars=PDF_WHITESPACE)
+    try:
+        return a85decode(data, ignorechars=PDF_WHITESPACE)
+    except ValueError as e:
+        raise PDFValueError("Invalid ASCII85 data: %s" % e)
 
 
 # the six PDF white-space characters (plus VT, which was always skipped here)
@@ -47,6 +52,10 @@ def asciihexdecode(data: bytes) -> bytes:
     idx = data.find(b">")
     if idx != -1:
         data = data[:idx]
-        if idx % 2 == 1:
-            data += b"0"
-    return unhexlify(data)
+    if len(data) % 2 == 1:
+        # also when the EOD marker is missing, e.g. from truncated data
+        data += b"0"
+    try:
+        return unhexlify(data)
+    except ValueError as e:
+        raise PDFValueError("Invalid ASCIIHex data: %s" % e)
